@@ -1,8 +1,8 @@
 #!/bin/bash
-# seed_import.sh <worktree> <property> <i>: keep a confirmed seeded change under /verif/seeded/<property>-<i>/
+# seed_import.sh <worktree> <property> <i> [n]: keep a confirmed seeded change under /verif/seeded/<property>-<n>/ (n defaults to i)
 set -eu
-WT=$1; P=$2; I=$3
-D=/verif/seeded/$P-$I
+WT=$1; P=$2; I=$3; N=${4:-$3}
+D=/verif/seeded/$P-$N
 mkdir -p $D
 cp $WT/_seed/patch$I.diff $D/patch.diff
 [ -f $WT/_seed/demo$I.diff ] && cp $WT/_seed/demo$I.diff $D/demo.diff
